@@ -279,8 +279,15 @@ func relaySizesC04(t *relayTable) (int, int) {
 func TestVerif_C04(t *testing.T) {
 	r := vmc.New("C04", "exploration")
 	r.Rule = "grid {1,2 transits} x kind {tcp, forward, udp, udp with a key-zeroing transit} x payload sizes (1, 17, 16356, 16357, 40000; thorough adds boundary neighbours) through the real ingress, transit(s) and exit; every frame on every link captured; non-trivial = cases in which data-bearing frames crossed a transit (distinct by topology, kind, frame count)"
-	r.Assume("ICMP echo tunnels are not driven (no ICMP sockets in the sandbox); the ICMP ingress/exit key handling mirrors UDP's")
 	var rp c04Case
+	var rpi c04ICMPCase
+	if r.ReplayInto(&rpi) && rpi.ICMP {
+		c04ICMPReplay(r, rpi)
+		if err := r.Finish(); err != nil {
+			t.Fatal(err)
+		}
+		return
+	}
 	if r.ReplayInto(&rp) {
 		c04Run(r, rp)
 		if err := r.Finish(); err != nil {
@@ -305,6 +312,7 @@ func TestVerif_C04(t *testing.T) {
 			}
 		}
 	}
+	c04ICMPAll(r)
 	r.Sample(c04Case{1, "tcp", 16357})
 	r.Sample(c04Case{2, "udp-tampering-transit", 17})
 	if err := r.Finish(); err != nil {
